@@ -53,6 +53,12 @@ def cases_for(ctx):
     # still holds, nothing is left behind
     cases.append({'behaviours': ['unpicklable_answer', 'unpicklable_answer', 'unpicklable_answer', E, 'unpicklable_answer', E, E], 'recycle': 2, 'consume': 'full'})
     cases.append({'behaviours': [E, E, 'unpicklable_answer', E, E, E], 'recycle': 5, 'consume': ['raise', 4]})
+    # timeout and recycle rate tightened on the caller's configuration object after the equalizer was built (also through the studio)
+    cases.append({'behaviours': [E, E, 'hang', E, E, E], 'recycle': 5, 'timeout': 60.0, 'consume': 'full', 'tighten_after': {'timeout': 1.0, 'recycle': 2}})
+    cases.append({'behaviours': [E, 'hang', E], 'recycle': 5, 'timeout': 60.0, 'consume': 'full', 'tighten_after': {'timeout': 1.0, 'recycle': 1}, 'via_studio': True})
+    # a worker process cannot be started (fork fails with EAGAIN) exactly when the replay it would serve hangs
+    cases.append({'behaviours': ['hang', E, E], 'recycle': 3, 'consume': 'full', 'fork_fails_at': [1]})
+    cases.append({'behaviours': [E, 'exit', 'hang', E], 'recycle': 3, 'consume': 'full', 'fork_fails_at': [3]})
     # replayed code starts an asynchronous cassette of its own inside the worker and never closes it
     cases.append({'behaviours': [E, 'start_async_cassette', E, E, E], 'recycle': 2, 'consume': 'full'})
     # runs started through a long-lived studio object and abandoned; a parent descheduled right after forking a worker
@@ -115,7 +121,9 @@ def judge(ctx, case, res, w):
         if beh[i] in ('hang', 'exit', 'hang_sigterm_ignored') and r['status'] != 'EqualizerFailure':
             problems.append(('a %s worker was not reported as a failure (%s)' % (beh[i], r['status']), {}))
     # "the run continues with a fresh worker": healthy replays after a fault get their own verdict
-    for i, r in enumerate(res['results']):
+    # (a worker that could not be STARTED is a resource fault outside the property's fault model: which replays fail because of it is not
+    #  judged - only that the run goes on, stays within the time bound and leaves nothing behind)
+    for i, r in enumerate(res['results'] if not case.get('fork_fails_at') else []):
         if beh[i] in ('equal', 'different', 'start_async_cassette') and not (i > 0 and beh[i - 1] == H.IDLE_DEATH):
             if r['status'] != H.EXPECTED[beh[i]]:
                 problems.append(('healthy replay %d (%s) was reported as %s: the run did not continue with a working worker' % (i, beh[i], r['status']), {}))
@@ -129,7 +137,7 @@ def judge(ctx, case, res, w):
         ctx.maximum('max_tasks_per_worker_pid', c)
         if c > case['recycle']:
             problems.append(('worker pid %d served %d replays, recycle rate is %d' % (p, c, case['recycle']), {}))
-    if set(res['task_pid']) - set(res['pids']):
+    if set(res['task_pid']) - set(res['pids']) - ({None} if case.get('fork_fails_at') else set()):
         problems.append(('task handed to a process the harness never saw being created', {}))
     # census
     ctx.count('census_taken')
